@@ -166,7 +166,7 @@ def run(tier, seed):
         "parsed by the real reader; the canonical name-keyed structure (identifiers and original names included) must "
         "equal the abstract design; states = distinct texts; non-trivial = texts exercising a non-default rendering")
     found = {}
-    deadline = time.time() + (200 if tier == "quick" else 3000)
+    deadline = time.time() + (900 if tier == "quick" else 6000)
     cs = cases(tier)
     k = seed % 7
     engine_b.run_cases(ID, cs[k:] + cs[:k], cov, found, deadline, level="edif-texts/" + tier)
